@@ -44,10 +44,10 @@ def stepLine (s : St) (n : Nat) (ln : Line) : St × List String :=
       let sub := subHistory cs k
       let overlap := sub.any fun a => sub.any fun b => a.line != b.line && a.inv < b.ret && b.inv < a.ret
       let stepf := modelStep
-      match linearize stepf strict (Vol.init (0, 0)) sub (200000 : Nat) with
+      match linearize stepf strict (Vol.init (0, 0)) sub (2000000 : Nat) with
       | .found => ["COV key.linearized"] ++ (if overlap then ["COV key.with-overlapping-calls"] else [])
       | .notFound =>
-        let cls := if linearize stepf strictOrWild (Vol.init (0, 0)) (sub.map relaxHttpDelete) (200000 : Nat) == .found
+        let cls := if linearize stepf strictOrWild (Vol.init (0, 0)) (sub.map relaxHttpDelete) (2000000 : Nat) == .found
           then "history/http-delete-read-then-delete-not-atomic" else "history/not-linearizable"
         [specfail n cls s!"key={k} history-starts-at-line={s.start} calls={sub.length}"]
       | .budget => [s!"DIFF {n} linearization-search-budget-exhausted key={k}"]
